@@ -1,7 +1,7 @@
 from . import streams_codec, cli, streams_ugrid, streams_gathermeshb
 
 ID = 'C08'
-PROPS_MODULE = ['Refine.Props.C08', 'Refine.Props.C08Endian', 'Refine.Props.C08Ugrid']
+PROPS_MODULE = ['Refine.Props.C08', 'Refine.Props.C08Endian', 'Refine.Props.C08Ugrid', 'Refine.Props.C08Gather']
 STREAMS = [streams_codec.MESHB_WRITE, streams_codec.MESHB_READ, cli.CONVERT, cli.CONVERT_MPI,
            streams_ugrid.WRITE, streams_ugrid.READ, streams_ugrid.PART, streams_ugrid.GATHER,
            streams_gathermeshb.GATHERMESHB]
